@@ -22,7 +22,7 @@ def gen_script(ctx, q):
         else:
             L.append("w 0 s f %d %s" % (nfr, " ".join(str(v) for v in vals)))
         L.append("close 0")
-        L.append("open 0 %d r 0 0 0" % sid)
+        L.append(("open 0 %d r 0 0 0" % sid) if not formats.name(f).startswith("RAW/") else "open 0 %d r %x %d 8000" % (sid, f, ch))      # header-less: opened with its parameters
         ts = gens.types_for(nm.split("/")[1])
         for t in ts:
             L.append("ref 0 %s" % t)
